@@ -217,8 +217,9 @@ def run(prop, tier, seed, replay=None):
                     "is judged by the observer KrpcServer!Step in TLC; modes: %s" % ", ".join(m for m, _, _ in PLAN[prop]["modes"][tier]),
                invariants=["Inv" + prop])
     rc = v.finish()
-    vlib.write_evidence(prop, tier, seed, cov, time.time() - t0, len(v.violations),
-                        assumptions=["datagrams are built and decoded by the harness's own bencode code, not by the packages under test",
-                                     "quiescence = no reply/error/callback goroutine of the module left (stack scan) after a synchronous injection",
-                                     "sources are *net.UDPAddr with 4- or 16-byte IPs, as a UDP socket produces"])
+    if not replay:      # a replay re-runs one stored case; the evidence of the last full run is left alone
+        vlib.write_evidence(prop, tier, seed, cov, time.time() - t0, len(v.violations),
+                            assumptions=["datagrams are built and decoded by the harness's own bencode code, not by the packages under test",
+                                         "quiescence = no reply/error/callback goroutine of the module left (stack scan) after a synchronous injection",
+                                         "sources are *net.UDPAddr with 4- or 16-byte IPs, as a UDP socket produces"])
     return rc
